@@ -785,35 +785,65 @@ macro_rules! value_payload_unit {
 value_payload_unit!(c03_value_payload_t__n16, stub_sig_from_bytes_t, b't', 8, "C03.value_payload.t.ok_iff_valid_payload", "C03.value_payload.t.value_at_absolute_alignment", "C03.value_payload.t.consumed", "C03.value_payload.t.outer_depth_unchanged");
 
 // The signature carried by a variant must be exactly ONE complete type (D-Bus specification, VARIANT).
-// Concrete inputs, real `Signature::from_bytes` (the winnow parser is tractable on concrete bytes).
-// @unit C03.value_sig.instances props=C03 kind=instance bound=3-concrete-variant-signatures fn=<zvariant::dbus::de::ValueDeserializer.as.serde::de::SeqAccess>::next_element_seed,zvariant_utils::signature::Signature::from_bytes timeout=900
-#[cfg(kani)]
-#[kani::proof]
-#[kani::stub(alloc::fmt::format, stub_format)]
-#[kani::stub(<Signature as std::clone::Clone>::clone, stub_sig_clone)]
-#[kani::stub(<str as std::string::ToString>::to_string, stub_str_to_string)]
-#[kani::unwind(12)]
-fn c03_value_sig__instances() {
-    let k: u8 = kani::any();
-    kani::assume(k < 3);
-    // [sig len][sig bytes][NUL][padding][payload]
-    let two_types: [u8; 12] = [2, b'i', b'i', 0, 1, 0, 0, 0, 2, 0, 0, 0];   // "ii": two complete types
-    let empty: [u8; 12] = [0, 0, 0, 0, 1, 0, 0, 0, 2, 0, 0, 0];             // "": no type at all
-    let single: [u8; 12] = [1, b'u', 0, 0, 5, 0, 0, 0, 0, 0, 0, 0];         // "u": valid
-    let bytes: &[u8] = match k { 0 => &two_types, 1 => &empty, _ => &single };
-    let mut de: De<'_> = Deserializer(DeserializerCommon {
-        ctxt: Context::new_dbus(Endian::Little, 0), bytes, fds: None, pos: 0,
-        signature: &SIG_VARIANT, container_depths: ContainerDepths::default(),
-    });
-    de.0.pos = 1 + bytes[0] as usize + 1;
-    let mut vd = ValueDeserializer { de: &mut de, stage: ValueParseStage::Value, sig_start: 0 };
-    let r = vd.next_element_seed(core::marker::PhantomData::<u32>);
-    if k == 0 { obl!("C03.value_sig.instances.two_complete_types_rejected", r.is_err()); }
-    if k == 1 { obl!("C03.value_sig.instances.empty_signature_rejected", r.is_err()); }
-    if k == 2 { obl!("C03.value_sig.instances.single_type_accepted", matches!(r, Ok(Some(5)))); }
-    kani::cover!(k == 2 && r.is_ok(), "cover.valid_ok");
-    core::mem::forget(r);
+// Assumed contract of the dependency `Signature::from_bytes` (the winnow parser does not finish under CBMC even
+// on concrete input: 13 GB / > 10 min measured): "" parses to the unit signature, "ii" parses to the implicit
+// structure (ii) -- the documented top-level behaviour of the parser (property C06: "up to the documented outer
+// parentheses of multi-type signatures"), "u" parses to U32.  The native replay runs the REAL parser.
+static II_FIELDS: [&Signature; 2] = [&SIG_I, &SIG_I];
+fn stub_sig_from_bytes_ii(bytes: &[u8]) -> core::result::Result<Signature, zvariant_utils::signature::Error> {
+    if bytes.len() == 2 && bytes[0] == b'i' && bytes[1] == b'i' { return Ok(Signature::static_structure(&II_FIELDS)); }
+    Err(zvariant_utils::signature::Error::InvalidSignature)
 }
+fn stub_sig_from_bytes_empty(bytes: &[u8]) -> core::result::Result<Signature, zvariant_utils::signature::Error> {
+    if bytes.len() == 0 { return Ok(Signature::Unit); }
+    Err(zvariant_utils::signature::Error::InvalidSignature)
+}
+/// Assumed contract of the dependency `Signature::string_len` for the three shapes these units meet (its loop over
+/// the structure fields plus the recursive drop glue needs unwind(4), which did not finish in 15 min):
+/// unit = 0, a basic type = 1, the structure (ii) = 4.  The native replay runs the real function.
+fn stub_string_len(s: &Signature) -> usize {
+    match s { Signature::Unit => 0, Signature::Structure(_) => 4, _ => 1 }
+}
+/// A consumer that does not look at the payload: whatever it does, a variant whose signature is not a single
+/// complete type must be rejected by the ValueDeserializer itself.
+struct IgnorePayload;
+impl<'de> DeserializeSeed<'de> for IgnorePayload {
+    type Value = u64;
+    fn deserialize<D: serde::Deserializer<'de>>(self, _d: D) -> core::result::Result<u64, D::Error> { Ok(7) }
+}
+macro_rules! value_sig_unit {
+    ($name:ident, $stub:ident, $unwind:expr, $head:expr, $o_rejected:literal) => {
+        #[cfg(kani)]
+        #[kani::proof]
+        #[kani::stub(alloc::fmt::format, stub_format)]
+        #[kani::stub(<Signature as std::clone::Clone>::clone, stub_sig_clone)]
+        #[kani::stub(<str as std::string::ToString>::to_string, stub_str_to_string)]
+        #[kani::stub(zvariant_utils::signature::Signature::from_bytes, $stub)]
+        #[kani::stub(zvariant_utils::signature::Signature::string_len, stub_string_len)]
+        #[kani::unwind($unwind)]
+        fn $name() {
+            // [sig len][sig bytes][NUL][zero padding up to 8][8 payload bytes: any]
+            let head: [u8; 4] = $head;
+            let payload: [u8; 8] = kani::any();
+            let bytes: [u8; 16] = [head[0], head[1], head[2], head[3], 0, 0, 0, 0,
+                payload[0], payload[1], payload[2], payload[3], payload[4], payload[5], payload[6], payload[7]];
+            let (endian, _big) = any_endian();
+            let mut de: De<'_> = Deserializer(DeserializerCommon {
+                ctxt: Context::new_dbus(endian, 0), bytes: &bytes, fds: None, pos: 1 + head[0] as usize + 1,
+                signature: &SIG_VARIANT, container_depths: ContainerDepths::default(),
+            });
+            let mut vd = ValueDeserializer { de: &mut de, stage: ValueParseStage::Value, sig_start: 0 };
+            let r = vd.next_element_seed(IgnorePayload);
+            obl!($o_rejected, r.is_err());
+            core::mem::forget(r);
+        }
+    };
+}
+// @unit C03.value_sig.two_types props=C03 kind=instance bound=variant-signature="ii",symbolic-payload fn=<zvariant::dbus::de::ValueDeserializer.as.serde::de::SeqAccess>::next_element_seed timeout=300
+value_sig_unit!(c03_value_sig_two_types__instance, stub_sig_from_bytes_ii, 2, [2, b'i', b'i', 0], "C03.value_sig.two_complete_types_rejected");
+// @unit C03.value_sig.empty props=C03 kind=instance bound=variant-signature="",symbolic-payload fn=<zvariant::dbus::de::ValueDeserializer.as.serde::de::SeqAccess>::next_element_seed timeout=300
+value_sig_unit!(c03_value_sig_empty__instance, stub_sig_from_bytes_empty, 2, [0, 0, 0, 0], "C03.value_sig.empty_signature_rejected");
+// (a single complete type is accepted: unit C03.value_payload.t, obligation ok_iff_valid_payload)
 
 // Stage Signature and stage Done of the same state machine.
 // @unit C03.value_stages props=C03,C04 kind=bounded bound=buffer<=6 fn=<zvariant::dbus::de::ValueDeserializer.as.serde::de::SeqAccess>::next_element_seed,zvariant::dbus::de::ValueDeserializer::new stubs=C03.parse_padding timeout=900
